@@ -350,10 +350,97 @@ def supertype_edit_pass(ctx):
             return
 
 
+def load_pass(ctx):
+    """the load path: XMI and JSON documents in which a reference (single, many) names an object of the *wrong class* of
+    the same document — spelled the way pyecore writes it (`//@pets.0`) and with a leading `#` — or an attribute holds a
+    text its type cannot read: the load raises, or every value observable afterwards (proxies followed) conforms"""
+    import os, re, shutil, tempfile, json as _json
+    from pyecore import ecore as E
+    from pyecore.resources import ResourceSet, URI
+    from pyecore.resources.json import JsonResource
+    tmp = tempfile.mkdtemp(prefix='verif_c03_')
+    try:
+        for k in range(16 if ctx.quick() else 200):
+            rng = common.sub_rng(ctx.seed, 'C03', 'load', k)
+            fmt = 'xmi' if k % 2 == 0 else 'json'
+            pk = E.EPackage('zoo', f'http://verif/c03/zoo{k}', 'zoo')
+            Person, Pet, Zoo = E.EClass('Person'), E.EClass('Pet'), E.EClass('Zoo')
+            pk.eClassifiers.extend([Person, Pet, Zoo])
+            for c in (Person, Pet):
+                c.eStructuralFeatures.append(E.EAttribute('name', E.EString))
+            Zoo.eStructuralFeatures.extend([E.EReference('people', Person, upper=-1, containment=True),
+                                            E.EReference('pets', Pet, upper=-1, containment=True),
+                                            E.EReference('boss', Person), E.EReference('friends', Person, upper=-1),
+                                            E.EAttribute('n', E.EInt)])
+            zoo = Zoo(n=4)
+            zoo.people.extend([Person(name=f'p{i}') for i in range(3)])
+            zoo.pets.extend([Pet(name=f'q{i}') for i in range(2)])
+            zoo.boss = zoo.people[1]
+            zoo.friends.extend([zoo.people[0], zoo.people[2]])
+
+            def rs():
+                r = ResourceSet()
+                r.resource_factory['json'] = lambda uri: JsonResource(uri)
+                r.metamodel_registry[pk.nsURI] = pk
+                return r
+            path = os.path.join(tmp, f'zoo{k}.{fmt}')
+            res = rs().create_resource(URI(path))
+            res.append(zoo)
+            res.save()
+            text = open(path).read()
+            hash_ = rng.random() < .5
+            bad = ('#' if hash_ else '') + f'//@pets.{rng.randrange(2)}'
+            which = rng.choice(['boss', 'friends'])
+            if fmt == 'xmi':
+                if which == 'boss':
+                    doc = re.sub(r'boss="[^"]*"', f'boss="{bad}"', text)
+                else:
+                    doc = re.sub(r'friends="([^" ]*) [^"]*"', lambda m: f'friends="{m.group(1)} {bad}"', text)
+            else:
+                d = _json.loads(text)
+                if which == 'boss':
+                    d['boss']['$ref'] = bad
+                else:
+                    d['friends'][-1]['$ref'] = bad
+                doc = _json.dumps(d)
+            if doc == text:
+                ctx.count('load/no-token-found')
+                continue
+            open(path, 'w').write(doc)
+            ctx.evaluations += 1
+            label = f'{fmt}/{which}/{"with #" if hash_ else "as written"}'
+            try:
+                back = rs().get_resource(URI(path)).contents[0]
+            except Exception:
+                ctx.count(f'load/{label}/raised')
+                continue
+            ctx.count(f'load/{label}/loaded')
+            ctx.nontriv(('load', k))
+            wrong = None
+            try:
+                vals = [back.boss] if which == 'boss' else list(back.friends)
+                for v in vals:
+                    if v is None:
+                        continue
+                    cls = v.eClass          # (follows a proxy)
+                    if cls is not Person:
+                        wrong = f'{which} holds a {cls.name}'
+            except Exception as e:
+                wrong = None            # a reference that cannot be followed is C14's / C18's business
+            if wrong:
+                ctx.violate({'clause': 'stored-nonconforming', 'path': f'{fmt}-load'},
+                            f'stored-nonconforming: a {fmt} document whose {which} names a Pet ({bad!r}) loaded: {wrong}, the feature is typed Person',
+                            {'load_case': k, 'format': fmt, 'feature': which, 'token': bad})
+                return
+    finally:
+        shutil.rmtree(tmp, ignore_errors=True)
+
+
 def run(ctx):
     storecheck.run(ctx, CHECKS)
     default_conformance_pass(ctx)
     supertype_edit_pass(ctx)
+    load_pass(ctx)
     matrix(ctx)
     opposite_typing(ctx)
     ctx.rule += ('; plus the exhaustive conformance matrix: every ecore data type, two enumerations sharing a literal name, 5 classes '
